@@ -38,6 +38,14 @@ def classify(ctx, res, label):
         msg = f["msg"]
         if "sanitizer report" in msg or "leftovers at exit" in msg or "driver exit code" in msg:
             ctx.spec_fail("memory error / leak / crash in the compiled gateway (%s)" % label, history=f["tag"], detail=msg[:1500])
+        elif "generated gateway does not compile" in msg:
+            ctx.spec_fail("the gateway generated for a valid interface file is not valid C++ (%s)" % label, gateway=f["tag"], detail=msg[:3000])
+        elif "did not receive the supplied argument values" in msg:
+            ctx.spec_fail("a call did not reach the declared C++ entity with the supplied argument values (%s)" % label,
+                          history=f["tag"], detail=msg[:1500])
+        elif "not a copy of the declared source" in msg:
+            ctx.spec_fail("a call returned an object that is not (a copy of) what the declared C++ entity returned (%s)" % label,
+                          history=f["tag"], detail=msg[:1500])
         else:
             ctx.disagree("gateway and model differ (%s)" % label, history=f["tag"], detail=msg[:1500])
 
